@@ -17,6 +17,7 @@ import (
 	"github.com/AdguardTeam/AdGuardDNS/internal/dnsserver"
 	"github.com/AdguardTeam/AdGuardDNS/internal/dnsserver/zzverif/vdns"
 	"github.com/AdguardTeam/AdGuardDNS/internal/dnsserver/zzverif/vrt"
+	"github.com/AdguardTeam/AdGuardDNS/internal/dnsserver/zzverif/xsched"
 	"github.com/AdguardTeam/AdGuardDNS/internal/dnssvc/internal/ratelimitmw"
 	"github.com/AdguardTeam/AdGuardDNS/internal/ecscache"
 	"github.com/AdguardTeam/AdGuardDNS/internal/geoip"
@@ -213,6 +214,10 @@ func ecsAnswer(kind string, req *dns.Msg) (resp *dns.Msg) {
 }
 
 func (u *ecsUpstream) ServeDNS(ctx context.Context, rw dnsserver.ResponseWriter, req *dns.Msg) (err error) {
+	// The exchange with the upstream takes time: other requests may run
+	// meanwhile (scheduling points under the schedule explorer, no-ops else).
+	xsched.Yield("upstream: request sent")
+	defer xsched.Yield("upstream: answer received")
 	resp := ecsAnswer(u.kind, req)
 	fwd, _ := ecsForwarded(req)
 	u.calls = append(u.calls, ecsCall{at: time.Now(), req: req.Copy(), resp: resp.Copy(), subnet: fwd})
